@@ -78,6 +78,9 @@ func mkUserLeaf(r *R) error {
 	name, tstr := userDesc(e)
 	r.S = append([]string{name, tstr, in(r, 0)}, safe...)
 	r.N = []int{0}
+	if nin(r, 0) == 2 {
+		r.N = []int{1} // the type has a Cause() method (returning nil here)
+	}
 	return e
 }
 
